@@ -122,6 +122,7 @@ def chunk_fn(chunk):
 def judge(o, c, v, origin):
     exp = exp_map(c["map"])
     lua_asis = exp_map(c["lua_asis"])
+    node_asis = exp_map(c["node_asis"])
     written = "{{T" + "".join("|" + text(a) for a in c["args"]) + "}}"
     for view in ("node", "expander", "lua"):
         o.evaluations += 1
@@ -130,7 +131,10 @@ def judge(o, c, v, origin):
             continue
         case = {"origin": origin, "call": written, "view": view, "expected": {str(k): x for k, x in exp.items()},
                 "got": {str(k): x for k, x in got.items()} if isinstance(got, dict) else got}
-        if view == "lua" and got == lua_asis and lua_asis != exp:
+        if view == "node" and got == node_asis and node_asis != exp:
+            o.classify(case, "the parsed node's argument map lacks the blanks of a blank-only line of the written value",
+                       ["NodeViewDropsBlankOnlyLines"], cls="node-known")
+        elif view == "lua" and got == lua_asis and lua_asis != exp:
             o.classify(case, "Lua frame.args differs from the argument map", sorted(o.known), cls="lua-known")
         else:
             o.violation(case, f"{view} view of {written!r} is {got!r}; the specification's argument map is {exp!r}", cls=view)
